@@ -110,7 +110,7 @@ def run(ctx):
         add('bk_interaction_operator', '(pauli_equiv (bk_gen Cis0 %s %s) %s)' % (coq_fop_terms(spec), cZ(nq), coq_qop(out)),
             {'call': 'bravyi_kitaev(InteractionOperator)', 'n': n, 'n_qubits': nq, 'one_body': repr(one.tolist()), 'two_body_nonzero': {repr(x): repr(two[x]) for x in zip(*np.nonzero(two))}}, key=(nq, repr(spec)))
     # F. _seeley_richard_love(i, j, c, n) = c * bk(a+_i) bk(a_j), all (i, j) for n <= nsrl
-    nsrl = N(9, 16)
+    nsrl = N(16, 40)
     for n in range(1, nsrl + 1):
         rows = []
         for i, j in itertools.product(range(n), repeat=2):
